@@ -118,12 +118,18 @@ contract("cnvlib/cnary.py::CopyNumArray.by_gene", params=dict(arr=ObjT("CopyNumA
 
 
 # ----------------------------------------------------------------------------- genemetrics
-def _gene_row(rr):
+def _gene_row(rr, skip_low=False, xshift=0.0):
+    """the statement's gene row; with skip_low the mean is over the bins that are not dead (log2 >= -15, depth != 0) while
+    extent, bin count, weight and depth stay those of the whole gene; xshift is what the sex adjustment adds on chrX"""
     w = [r.weight for r in rr]
-    if any(w):
-        lg = sum(a * b for a, b in zip(w, [r.log2 for r in rr])) / sum(w)
+    sh = xshift if rr[0].chromosome in ("chrX", "X") else 0.0
+    live = [(r.log2 + sh, r.weight) for r in rr if not (skip_low and (r.log2 + sh < -15 or r.depth == 0))]
+    if not live:
+        lg = float("nan")
+    elif any(b for _a, b in live):
+        lg = sum(a * b for a, b in live) / sum(b for _a, b in live)
     else:
-        lg = sum(r.log2 for r in rr) / len(rr)
+        lg = sum(a for a, _b in live) / len(live)
     dep = None
     if sum(w) > 0:
         dep = sum(a * r.depth for a, r in zip(w, rr)) / sum(w)
@@ -131,7 +137,8 @@ def _gene_row(rr):
 
 
 def _gen_genemetrics(rng, tier, i):
-    """bin tables as for by_gene x threshold x min_probes (no segments); female sample and reference (no sex shift)"""
+    """bin tables as for by_gene x threshold x min_probes (no segments) x skip_low (with dead bins) x reference sex x
+    stated sample sex"""
     if i >= (500 if tier == "quick" else 10000):
         return None
     arr, owners = _bins(rng, tier, filtered=False)
@@ -154,12 +161,21 @@ def _gen_genemetrics(rng, tier, i):
             w[:] = np.where(w == 0, 0.3, w)
             break
     arr.data["weight"] = w
-    return dict(arr=arr, threshold=rng.choice([0.0, 0.1, 0.2, 0.5]), min_probes=rng.choice([0, 1, 2, 3, 5]))
+    skip_low = rng.random() < 0.4
+    if skip_low:
+        # dead bins (no coverage) anywhere, also first/last in a gene
+        lg, dp = arr.data["log2"].values.copy(), arr.data["depth"].values.copy()
+        for k in range(len(lg)):
+            if rng.random() < 0.15:
+                lg[k], dp[k] = -20.0, 0.0
+        arr.data["log2"], arr.data["depth"] = lg, dp
+    return dict(arr=arr, threshold=rng.choice([0.0, 0.1, 0.2, 0.5]), min_probes=rng.choice([0, 1, 2, 3, 5]),
+                skip_low=skip_low, male_ref=rng.random() < 0.4, female=rng.random() < 0.5)
 
 
 def _call_genemetrics(fn, a):
     from cnvlib import reports
-    return reports.do_genemetrics(a["arr"], None, a["threshold"], a["min_probes"], False, False, True)
+    return reports.do_genemetrics(a["arr"], None, a["threshold"], a["min_probes"], a["skip_low"], a["male_ref"], a["female"])
 
 
 def _close(a, b):
@@ -171,13 +187,17 @@ def _chk_genemetrics(args, res, old):
     for g, rr in _expected_blocks(old["arr"]):
         if g == "Antitarget":
             continue
-        e = _gene_row(rr)
+        # the sex adjustment (shift_xx, proved separately): chrX moves by -1 for a female sample against a male
+        # reference and by +1 for a male sample against a female reference
+        xs = -1.0 if (old["female"] and old["male_ref"]) else (1.0 if (not old["female"] and not old["male_ref"]) else 0.0)
+        e = _gene_row(rr, old["skip_low"], xs)
         e["gene"] = g
         if abs(e["log2"]) >= old["threshold"] and (not old["min_probes"] or e["probes"] >= old["min_probes"]):
             exp.append(e)
     got = list(res.itertuples(index=False)) if len(res) else []
     if len(got) != len(exp):
-        return "genemetrics reports %r, expected genes %r" % ([getattr(r, "gene", None) for r in got], [e["gene"] for e in exp])
+        return "genemetrics(skip_low=%s, male_ref=%s, female=%s) reports %r, expected genes %r" % (
+            old["skip_low"], old["male_ref"], old["female"], [getattr(r, "gene", None) for r in got], [e["gene"] for e in exp])
     for r, e in zip(got, exp):
         for f in ("gene", "chromosome", "start", "end", "probes"):
             if getattr(r, f) != e[f]:
